@@ -47,11 +47,17 @@ def _ics(spec, n, tier):
     statuses = SPECS[spec][0]
     active = {'SI': 'I', 'SIS': 'I', 'SIR': 'I', 'SIRS': 'I', 'SEIR': 'I', 'compete': 'I1', 'vacc': 'I'}[spec]
     out = []
-    if tier == 'thorough':
+    if tier == 'thorough' and n <= 2:
         for a in itertools.product(statuses, repeat=n):
             if any(x in ('I', 'I1', 'I2', 'E') for x in a):
                 out.append(list(a))
         return out
+    if tier == 'thorough':
+        # n = 3: every assignment over {susceptible, active, last status} with an active node, plus the quick ones
+        sub = [statuses[0], active, statuses[-1]]
+        for a in itertools.product(sub, repeat=n):
+            if active in a and list(a) not in out:
+                out.append(list(a))
     base = ['S'] * n
     for i in range(n):
         a = list(base)
@@ -73,7 +79,7 @@ def configs(tier):
     E = 3 if tier == 'quick' else 4
     specs = ['SIS', 'SIR', 'SIRS', 'SEIR', 'compete'] if tier == 'quick' else list(SPECS)
     ugl = ['K2', 'K2+K1', 'P3', 'K3'] if tier == 'quick' else list(graphs.G3)
-    dgl = DIGRAPHS_Q if tier == 'quick' else list(graphs.digraphs(2)) + list(graphs.digraphs(3))
+    dgl = DIGRAPHS_Q if tier == 'quick' else list(graphs.digraphs(2)) + list(graphs.digraphs(3))[:16:2] + DIGRAPHS_Q
     for spec in specs:
         for g in ugl + dgl:
             directed = g.startswith('D:')
@@ -82,7 +88,8 @@ def configs(tier):
                 continue
             for ic in _ics(spec, n, tier):
                 modes = ['plain']
-                if spec in ('SIS', 'SIR') and (g in ('P3', 'K2', 'D:3:01,12') or tier == 'thorough'):
+                if spec in ('SIS', 'SIR') and (g in ('P3', 'K2', 'D:3:01,12') or (tier == 'thorough' and g in ('K3', 'K2+K1', 'D:2:01', 'D:3:01,10,12'))) \
+                        and ic in _ics(spec, n, 'quick'):
                     modes += ['weight_label', 'rate_function']
                 for mode in modes:
                     out.append(dict(entry='Gillespie_simple_contagion', spec=spec, graph=g, directed=directed, ic=ic, mode=mode, full=False,
